@@ -54,7 +54,9 @@ class Dest:
             if oid not in self.decided:
                 self.decided[oid] = B(self.fails[oid])
             if self.decided[oid]:
-                on_error(oid, OSError("injected"))
+                if "kind" not in self.decided:
+                    self.decided["kind"] = B(self.ek)
+                on_error(oid, FileNotFoundError(2, "injected: source vanished") if self.decided["kind"] else OSError("injected"))
             else:
                 self.present.add(oid)
             self.check_closed()
@@ -62,7 +64,7 @@ class Dest:
 
 def h_kernel(l00: bool, l01: bool, l02: bool, l10: bool, l11: bool, l12: bool, rd0: bool, rd1: bool,
              pf0: bool, pf1: bool, pf2: bool, m0: bool, m1: bool, m2: bool,
-             xf0: bool, xf1: bool, xf2: bool, xd0: bool, xd1: bool) -> bool:
+             xf0: bool, xf1: bool, xf2: bool, xd0: bool, xd1: bool, ek: bool = False) -> bool:
     """
     post: _
     """
@@ -98,6 +100,7 @@ def h_kernel(l00: bool, l01: bool, l02: bool, l10: bool, l11: bool, l12: bool, r
                     new.add(HashInfo("md5", f))
         fails = dict(zip(FILES + DIRS, (xf0, xf1, xf2, xd0, xd1)))
         dest = Dest(present, fails, listing)
+        dest.ek = ek
         try:
             failed = T._do_transfer(Src(), dest, new, {HashInfo("md5", f) for f in missing})
         except Exception as e:  # noqa: BLE001
@@ -123,5 +126,5 @@ def h_kernel(l00: bool, l01: bool, l02: bool, l10: bool, l11: bool, l12: bool, r
     finally:
         T.find_tree_by_obj_id = real_find
     journal({"listing": listing, "req": req_dirs, "present": present, "missing": missing,
-             "fail": sorted(k for k, v in dest.decided.items() if v)}, nontrivial=bool(dest.uploads))
+             "fail": sorted(k for k, v in dest.decided.items() if v and k != "kind"), "enoent": bool(dest.decided.get("kind"))}, nontrivial=bool(dest.uploads))
     return True
